@@ -245,6 +245,10 @@ func upperOK(facts []Fact, x *ssa.Slice, fn *ssa.Function) bool {
 		if l, ok := isLen(bo.X); ok && Path(l) == Path(x.X) {
 			return true
 		}
+		// the length of s held in a variable: s = y[:n] and hi = n - K
+		if Path(bo.X) == lenPathOf(x.X) {
+			return true
+		}
 	}
 	if l, ok := isLen(hi); ok && Path(l) == Path(x.X) {
 		return true
@@ -530,6 +534,10 @@ var ConsumedHook func(n, s ssa.Value) bool
 func lenPathOf(s ssa.Value) string {
 	if mk := makeOf(s); mk != nil {
 		return Path(mk.Len)
+	}
+	// s = x[:h] has length h
+	if sl, ok := Strip(s).(*ssa.Slice); ok && sl.Low == nil && sl.High != nil {
+		return Path(sl.High)
 	}
 	return "len(" + Path(s) + ")"
 }
